@@ -15,7 +15,7 @@ import (
 	"time"
 
 	"github.com/kardiachain/go-kardia/lib/p2p"
-	"github.com/kardiachain/go-kardia/lib/p2p/behaviour"
+	"github.com/kardiachain/go-kardia/lib/behaviour"
 )
 
 // VerifC18TryLock reports whether the reactor's RWMutex is completely free (no reader, no writer).
